@@ -525,3 +525,76 @@ class DeleteAllStates_contract:
 
     def canary(sh, a, ret):
         check("canary: nothing is ever rewritten", len(ret) == 0)
+
+
+# =====================================================================================
+# gemmx: the launch that carries per-channel-group rescale values (mult_vals / shift_vals / m attributes)
+# =====================================================================================
+from xdsl.dialects.builtin import DenseArrayBase, IntegerAttr, IntegerType  # noqa: E402
+
+GROUPS = [dict(n=n, groups=g) for n in (4, 8) for g in (1, 2, 3)]
+
+
+@contract
+class GEMMX_channelwise_launch_contract:
+    """every launch_gemmx write of the channel-wise launch finds, in the shift_* and mult_* registers, the values of ITS
+    channel group - written by this lowering itself before that launch (the first group included: a setup hoisted out of a
+    loop does not re-write them on the second execution)"""
+    target = "snaxc.accelerators.snax_gemmx.SNAXGEMMXAccelerator.lower_acc_launch"
+    shapes = GROUPS
+    total = True
+    compare_ret = False
+    native = False
+    permissive = True
+
+    def args(sh, sym):
+        n, g = sh["n"], sh["groups"]
+        acc = SNAXGEMMXAccelerator(n=n)
+        acc_op = acc.generate_acc_op()
+        mults = [sym.int(f"m{i}", 0, 1000) for i in range(n * g)]
+        shifts = [(7 * i + 3) % 32 for i in range(n * g)]
+        vals = [mk_ident_value(200, i32), mk_ident_value(201, i32)]
+        state = mk_ident_value(300, accfg.StateType(acc.name))
+        lop = accfg.LaunchOp(vals, ["launch_streamer", "launch_gemmx"], state)
+        lop.attributes["mult_vals"] = DenseArrayBase(tuple(mults), i32)
+        lop.attributes["shift_vals"] = DenseArrayBase(tuple(shifts), IntegerType(8))
+        lop.attributes["m"] = IntegerAttr(sym.int("M", 1, 64) * g, i32)
+        return [acc, lop, acc_op, mults, shifts, vals]
+
+    def run(sh, a):
+        return a[0].lower_acc_launch(a[1], a[2])
+
+    def ensures(sh, a, ret):
+        acc, lop, acc_op, mults, shifts, vals = a
+        n, g = sh["n"], sh["groups"]
+        fields = dict(acc_op.field_items())
+        launch = dict(acc_op.launch_field_items())
+
+        def addr(x):
+            return x.value.data if hasattr(x, "value") else x
+
+        regs = {}
+        launches = 0
+        for e in csr_events(list(ret)):
+            if e[0] != "w":
+                continue
+            if e[1] == addr(launch["launch_gemmx"]):
+                i = launches
+                launches += 1
+                if i < g:
+                    for j in range(n):
+                        k = addr(fields[f"mult_{j}"])
+                        check(f"launch of group {i}: mult_{j} was written by this lowering and holds the group's value", k in regs and den(regs[k]) == mults[i * n + j])
+                    for j in range(0, n, 4):
+                        k = addr(fields[f"shift_{j // 4}"])
+                        grp = shifts[i * n + j:i * n + j + 4]
+                        want = 0
+                        for q in range(len(grp)):
+                            want = want + grp[q] * (2 ** (8 * q))
+                        check(f"launch of group {i}: shift_{j // 4} was written by this lowering and packs the group's shifts", k in regs and den(regs[k]) == want)
+            else:
+                regs[e[1]] = e[2]
+        check("one accelerator launch per channel group", launches == g)
+
+    def canary(sh, a, ret):
+        check("canary: no CSR write", len([e for e in csr_events(list(ret)) if e[0] == "w"]) == 0)
